@@ -94,6 +94,12 @@ func solvencyCheck(x *engine.Exec, ref *rewRef) []engine.Failure {
 			}
 			r := w.Exec(ctx, world.Op{K: world.KClaim, D: p.D, V: p.V, Denom: p.Denom})
 			if r.Err != nil {
+				if _, verr := w.App.StakingKeeper.GetValidator(ctx, w.Vals[p.V]); verr != nil && strings.Contains(r.Err.Error(), "does not exist") {
+					// K-C10-validator-removed: the position sits on a validator x/staking has removed; nothing can be claimed for
+					// it any more. The other positions are still claimed in this order.
+					out = append(out, fail("claim-any-order", "validator-removed-while-alliance-stake-on-it", "after %s: claim of %s fails: %v", x.Op.String(), p.Key(), r.Err))
+					continue
+				}
 				cause := classify()
 				if !strings.Contains(r.Err.Error(), "insufficient funds") {
 					cause = ""
@@ -293,14 +299,62 @@ func init() {
 			small := []world.Op{opDel(0, 0, "aaa", "10"), opDel(1, 1, "aaa", "3"), opDel(1, 0, "aaa", "1"), opBlock(1)}
 			mid := []world.Op{opDel(0, 0, "aaa", "1000000"), opDel(1, 1, "aaa", "1000000"), opBlock(1)}
 			huge := []world.Op{opDel(0, 0, "aaa", "1000000000000000000000000"), opDel(1, 1, "aaa", "1000000000000000000"), opBlock(1)}
+			// full pipeline: x/staking removes a validator that carries alliance stake but no module stake (the stake arrived
+			// after it left the active set) while rewards are outstanding on another validator; no value-changing event occurs,
+			// so whatever can be claimed afterwards must still be covered by the pool
+			rcfg := world.DefaultConfig()
+			rcfg.FullPipeline = true
+			rcfg.Assets = []world.AssetCfg{{Denom: "aaa", Weight: "1", Min: "0", Max: "5", TakeRate: "0"}}
+			removed := &engine.Scenario{
+				Property: "C12", Name: "c12-validator-removed", Cfg: rcfg, Stores: world.AllStores,
+				Seeds:      [][]world.Op{{opDel(0, 0, "aaa", "1000000"), opBlock(1)}},
+				ClassNames: classNames, Budgets: tierPick(tier, []int{1, 0, 2, 5, 0}, []int{2, 0, 3, 6, 0}), MaxDepth: tierPick(tier, 8, 11),
+				NewRef: func(w *world.World, root *engine.Node) engine.Ref { return newRewRef() },
+				Ops: func(n *engine.Node) []world.Op {
+					ops := []world.Op{
+						{K: world.KNUndelegateAll, D: 99, V: 2, Class: ClsEnv},
+						{K: world.KDelegate, D: 1, V: 2, Denom: "aaa", Amt: "1000000", Class: ClsUser},
+						{K: world.KDelegate, D: 1, V: 0, Denom: "aaa", Amt: "500000", Class: ClsUser},
+						{K: world.KBlock, Dt: int64(U), Class: ClsBlock},
+						{K: world.KBlock, Dt: int64(2 * U), Class: ClsBlock},
+					}
+					if atBlockStart(n) {
+						ops = append(ops, world.Op{K: world.KReward, Denom: "stake", Amt: "1000003", Class: ClsEnv})
+					}
+					return ops
+				},
+				Step: func(x *engine.Exec) []engine.Failure {
+					if x.Res.Rejected {
+						return nil
+					}
+					if x.Op.K == world.KBlock && x.Res.Err != nil {
+						return []engine.Failure{fail("endblock", "error", "block failed: %v", x.Res.Err)}
+					}
+					s := x.Next.Snap()
+					for _, p := range s.Pos {
+						if _, err := x.W.App.StakingKeeper.GetValidator(x.Next.Ctx, x.W.Vals[p.V]); err != nil {
+							x.Cnt.Inc("state.alliance_stake_on_removed_validator")
+							if !s.Pool.IsZero() {
+								x.Cnt.Inc("state.alliance_stake_on_removed_validator_with_rewards_in_pool")
+							}
+							break
+						}
+					}
+					return solvencyCheck(x, x.Next.Ref.(*rewRef))
+				},
+				SeedStep: true,
+				Required: []string{"solvency.states_with_claimable_rewards", "state.alliance_stake_on_removed_validator"},
+			}
 			if tier == "thorough" {
 				return []*engine.Scenario{
+					removed,
 					mk("c12-small", small, rw("1", "7", "1000"), []string{"3"}, []int{3, 1, 2, 2, 0}, 7),
 					mk("c12-mid", mid, rw("7", "1000000"), []string{"500000"}, []int{3, 1, 2, 2, 0}, 7),
 					mk("c12-huge", huge, rw("1", "1000000"), []string{"1000000000000000000"}, []int{2, 1, 2, 2, 0}, 6),
 				}
 			}
 			return []*engine.Scenario{
+				removed,
 				mk("c12-small", small, rw("7", "1000"), []string{"3"}, []int{2, 1, 1, 2, 0}, 4),
 				mk("c12-mid", mid, rw("1000000"), []string{"500000"}, []int{2, 1, 2, 2, 0}, 5),
 				mk("c12-huge", huge, rw("1", "1000000"), []string{"1000000000000000000"}, []int{1, 1, 2, 1, 0}, 4),
